@@ -51,6 +51,14 @@ KINDS = {
     "fill_default": ("a.alloc_slice_fill_default::<u8>(3)", False, False),
     "try_slice_copy": ("a.try_alloc_slice_copy(&[1u8]).unwrap()", False, False),
     "try_str": ("a.try_alloc_str(\"x\").unwrap()", False, False),
+    "try_slice_clone": ("a.try_alloc_slice_clone(&[1u8, 2]).unwrap()", False, False),
+    "try_fill_with": ("a.try_alloc_slice_fill_with(3, |i| i).unwrap()", False, False),
+    "try_fill_copy": ("a.try_alloc_slice_fill_copy(3, 1u8).unwrap()", False, False),
+    "try_fill_clone": ("a.try_alloc_slice_fill_clone(3, &1u8).unwrap()", False, False),
+    "try_fill_iter": ("a.try_alloc_slice_fill_iter([1u8, 2].iter().copied()).unwrap()", False, False),
+    "try_fill_default": ("a.try_alloc_slice_fill_default::<u8>(3).unwrap()", False, False),
+    "slice_try_fill_with": ("a.alloc_slice_try_fill_with(3, |i| Ok::<usize, ()>(i)).unwrap()", False, False),
+    "slice_try_fill_iter": ("a.alloc_slice_try_fill_iter([Ok::<u8, ()>(1), Ok(2)].iter().copied()).unwrap()", False, False),
     "vec_new": (MD("Vec::<u8>::new_in(&a)"), False, True),
     "vec_from_iter": (MD("Vec::from_iter_in(0u8..3, &a)"), False, True),
     "string_new": (MD("BString::new_in(&a)"), False, True),
@@ -239,6 +247,20 @@ ORDINARY = [
     let kept2 = { let src = std::vec![3u8, 4]; a.alloc_slice_fill_iter(src.iter().copied()) };
     let kept3 = { let src = 5u8; a.alloc_slice_fill_copy(3, src) }; let kept4 = { let src = std::string::String::from("z"); a.alloc_slice_fill_clone(2, &src) };
     touch(&kept); touch(&kept2); touch(&kept3); touch(&kept4);"""),
+    ("copy_outlives_source_try_variants", """
+    let a = Bump::new();
+    let k1 = { let src = std::vec![1u8, 2, 3]; a.try_alloc_slice_copy(&src).unwrap() };
+    let k2 = { let src = std::vec![std::string::String::from("x")]; a.try_alloc_slice_clone(&src).unwrap() };
+    let k3 = { let src = std::string::String::from("hello"); a.try_alloc_str(&src).unwrap() };
+    let k4 = { let src = std::string::String::from("z"); a.try_alloc_slice_fill_clone(2, &src).unwrap() };
+    let k5 = { let src = std::vec![3u8, 4]; a.try_alloc_slice_fill_iter(src.iter().copied()).unwrap() };
+    touch(&k1); touch(&k2); touch(&k3); touch(&k4); touch(&k5);"""),
+    ("idle_min_align_arenas_to_threads", """
+    let a2 = Bump::<2>::with_min_align(); let a8 = Bump::<8>::with_min_align(); let a16 = Bump::<16>::with_min_align();
+    touch(a8.alloc(1u8));
+    let h = std::thread::spawn(move || { touch(a2.alloc(1u8)); touch(a8.alloc(2u64)); touch(a16.alloc(3u8)); (a2, a8, a16) });
+    let (b2, b8, b16) = h.join().unwrap(); touch(b2.alloc(1u8)); touch(b8.alloc(1u8)); touch(b16.alloc(1u8));
+    let (tx, rx) = std::sync::mpsc::channel::<Bump<4>>(); tx.send(Bump::<4>::with_min_align()).unwrap(); touch(rx.recv().unwrap().alloc(1u8));"""),
     ("many_kinds_alive_at_once", """
     let a = Bump::new();
     let x = a.alloc(1u32); let s = a.alloc_str("s"); let mut v = Vec::new_in(&a); v.push(1u8);
